@@ -268,7 +268,7 @@ def run_sm(pid, tier, seed, replay, t0, extra_cov=None, extra_viol=0, extra_rc=0
         "exhaustive": False,
     }
     if extra_cov:
-        cov["generator_part"] = extra_cov
+        cov["function_part"] = extra_cov
         cov["states"] += extra_cov["states"]
         cov["transitions"] += extra_cov["transitions"]
         cov["traces_validated_against_impl"] += extra_cov["traces_validated_against_impl"]
@@ -306,6 +306,31 @@ FN_PROPS["C13g"] = {
     "rule": "every generator program of bounded length over {yield, self-wake, await gate 1/2, drop handle} x every consumer "
             "schedule of bounded length (strict: polls only when woken; lazy: polls and gate fires in any order), enumerated by "
             "TLC from Generator.tla with each poll's result, wake-up flag and task position; non-trivial = programs of >= 2 ops"}
+
+FN_PROPS["C01"] = {
+    "title": "CUP verification accepts exactly the authentic responses", "module": "Cup", "cmd": "cup",
+    "cfg": {"quick": ["cup.cfg"], "thorough": ["cup.cfg"]}, "prefixes": ["CUP"],
+    "filter": lambda v: v.get("k") in ("ex", "tok"), "extra_vectors": "cup_flips",
+    "nontrivial": lambda v: True,
+    "rule": "symbolic exchanges enumerated by TLC from Cup.tla: (A) every parameter of the signed digest and the signing key, "
+            "(B) every composition of the digest (permutations, missing / duplicated components) and a metadata key id that "
+            "differs from the id passed, (C) every signature encoding x hash field x ETag shape x wrapping, over 8 client "
+            "exchanges and 8 handler configurations (latest + 0..2 historical keys), plus every ETag token string of length <= 4; "
+            "each materialised with real SHA-256 / P-256 by an independent signer; plus every single-bit flip of response body, "
+            "retained request, nonce, key id, DER signature, request hash and ETag text of seeded random genuine exchanges"}
+FN_PROPS["C03u"] = {
+    "title": "decoration of the service URL", "module": "Cup", "cmd": "cup",
+    "cfg": {"quick": ["cup.cfg"], "thorough": ["cup.cfg"]}, "prefixes": ["CUP"],
+    "filter": lambda v: v.get("k") == "url",
+    "nontrivial": lambda v: True,
+    "rule": "every service URL over {http, https} x {host, host:port, [v6], [v6]:port} x {no path, /, /a, /a/} x {no query, one pair, "
+            "two pairs, an existing cup2key pair}, decorated with two key configurations; the result is split by an independent "
+            "splitter and compared with Cup.tla's Decorate"}
+
+
+def cup_flips(rng, tier):
+    return [{"k": "flips", "i": rng.randint(0, 1 << 30), "_": "CUP"} for _ in range(4 if tier == "quick" else 50)]
+
 
 ASSUME_FN = ["The TLA+ reference model is the property's definition of the right output; inputs the property does not "
              "settle are marked unconstrained in the model and only 'does not panic' is required there."]
@@ -351,7 +376,7 @@ def run_fn(pid, tier, seed, replay, t0, as_part_of=None):
                               "what": "a law of the reference model itself fails (TLC trace in the replay file)"})
             elif rc != 0:
                 raise vlib.ToolError("TLC failed on %s: %s" % (cfg, out[-1500:]))
-            vs = tlc_vectors(out, spec["prefixes"])
+            vs = [x for x in tlc_vectors(out, spec["prefixes"]) if spec.get("filter", lambda v: True)(x)]
             vecs.extend(vs)
             stats["states"] += st.get("states", 0)
             stats["transitions"] += st.get("transitions", 0)
@@ -399,6 +424,14 @@ def run(pid, tier, seed, replay, t0):
             return run_sm(pid, tier, seed, replay, t0)
         grc, gcov, gviol = run_fn("C13g", tier, seed, None, t0, as_part_of="C13")
         return run_sm(pid, tier, seed, None, t0, extra_cov=gcov, extra_viol=gviol, extra_rc=grc)
+    if pid == "C03":
+        # two halves: URL decoration (Cup.tla, direct comparison) and freshness / faithfulness in the flow (monitor)
+        if replay and replay.endswith(".ndjson"):
+            return run_fn("C03u", tier, seed, replay, t0, as_part_of="C03")[0]
+        if replay:
+            return run_sm(pid, tier, seed, replay, t0)
+        urc, ucov, uviol = run_fn("C03u", tier, seed, None, t0, as_part_of="C03")
+        return run_sm(pid, tier, seed, None, t0, extra_cov=ucov, extra_viol=uviol, extra_rc=urc)
     if pid in SM_PROPS:
         return run_sm(pid, tier, seed, replay, t0)
     if pid in FN_PROPS:
@@ -425,7 +458,7 @@ def describe(pid):
             "level_note": "Trusted: TLC, the harness doubles and projection (independent signer / encoder / URL splitter), "
                           "embedder contracts as documented. Bounded/sampled exploration, not a proof.",
         }
-    if pid in FN_PROPS and pid != "C13g":
+    if pid in FN_PROPS and pid not in ("C13g", "C03u"):
         return {
             "engine": "tlc+harness",
             "design_ref": "DESIGN.md section 6 (%s)" % pid,
